@@ -319,7 +319,12 @@ func (e *extractor) namedType(t schema.NamedType) hx.Sexp {
 
 // extract abstracts a definition. The result lists every named type reachable by following
 // pointers (a superset of what schema.Inspect visits).
-func extract(def *schema.SchemaDefinition, ids *idAlloc) (hx.Sexp, error) {
+func extract(def *schema.SchemaDefinition, ids *idAlloc) (out hx.Sexp, err error) {
+	defer func() {
+		if p := recover(); p != nil {
+			out, err = hx.A("broken"), fmt.Errorf("the definition is no longer well-formed (%v)", p)
+		}
+	}()
 	e := &extractor{ids: ids, types: map[string]schema.NamedType{}}
 	optName := func(tag string, o *schema.ObjectType) hx.Sexp {
 		if o == nil {
